@@ -306,6 +306,8 @@ def gen_part2(rng, depth=0, n=None, in_func=False, funcs=None):
             lines.append('%s = %s + 1' % (v, w))
         elif r < 0.5:
             lines.append('print(%s)' % v)
+        elif in_func and depth >= 2 and r < 0.6:
+            lines.append('return %s' % rng.choice(['1', v]))
         elif depth >= 2:
             lines.append('%s = 2' % v)
         elif r < 0.62:
@@ -362,7 +364,10 @@ def run_plain(code, decisions):
     return None
 
 
-CALL_SITE_BODIES = ["print(a)", "t = a + 1\n    print(t)", "print(a)\n    print(b)", "print(p)\n    print(a)"]
+CALL_SITE_BODIES = ["print(a)", "t = a + 1\n    print(t)", "print(a)\n    print(b)", "print(p)\n    print(a)",
+                    # a return inside a loop or a branch does not end every path through the function
+                    "for i in range(int(input())):\n        return i\n    print(a)", "while input() == '1':\n        return 1\n    print(a)",
+                    "if input() == '1':\n        return 1\n    print(a)", "for i in range(int(input())):\n        if input() == '1':\n            return i\n    print(a)\n    return 0"]
 CALL_SITE_STATEMENTS = [
     "a = 1", "b = 2", "f0(%(args)s)", "if input() == '1':\n    a = 1\n    f0(%(args)s)", "if input() == '1':\n    a = 1\nelse:\n    f0(%(args)s)",
     "if input() == '1':\n    f0(%(args)s)\n    a = 1", "while input() == '1':\n    a = 1\n    f0(%(args)s)", "while input() == '1':\n    f0(%(args)s)\n    a = 1",
@@ -394,7 +399,7 @@ def check_part2(ctx, code, rng, exhaustive=False):
     if exhaustive:
         import itertools
         k = min(code.count('input()'), 4)
-        vectors = [list(v) + ['0'] * 8 for n in range(k + 1) for v in itertools.product(['1', '0'], repeat=n)]
+        vectors = [list(v) + ['0'] * 8 for n in range(k + 1) for v in itertools.product(['1', '0'] if 'range(int(input()))' not in code else ['1', '0', '2'], repeat=n)]
     else:
         vectors = [[rng.choice(['0', '1', '2', '1', '0']) for _ in range(12)] for _ in range(24)]
     for decisions in vectors:
